@@ -1148,9 +1148,12 @@ BOUNDED = {
         "bound": "HKY85 and GN on a 3-tip and a 4-tip tree, two alignments (12 and 10 columns, degenerate symbols and a "
                  "gap); alphabet of 25-26 operations (10 core: global / per-edge / constant / independent / shared-length "
                  "/ bounded rule, motif probs, alignment swap, postponed block, calculator change-revert-change with "
-                 "update_from_calculator; further: value-less rules, clade scope, nested and refused blocks, "
-                 "apply_param_rules, discarded calculator, optimise): every history of length <= 2 (thorough <= 3 on "
-                 "two configurations), core alphabet length 3 (thorough 4), seeded random histories of length 4-6",
+                 "update_from_calculator; further: value-less rules, clade scope, nested blocks, blocks and rules that "
+                 "are refused, apply_param_rules, discarded calculator, optimise): every history of length <= 2 (quick: "
+                 "full alphabet on two configurations, core alphabet on the other two); length 3 over the core alphabet "
+                 "(quick: one configuration and a seeded third of a second; thorough: all four, and the full alphabet "
+                 "without refused blocks on the first); thorough: length 4 over the core alphabet (first configuration, "
+                 "seeded third of the second); seeded random histories of 4-6 random operations (300 / 4000)",
         "rule": "a case = (model, tips, operations); checked after every operation; non-trivial when there is at least "
                 "one operation; distinct by hash of the case",
     },
@@ -1159,7 +1162,8 @@ BOUNDED = {
         "functions": ["LikelihoodFunction.get_param_rules", "_InputDefn.get_param_rules", "Setting.get_param_rule_dict",
                       "apply_param_rules", "nfp", "lnL"],
         "bound": "same configurations and alphabet as 'history': every history of length <= 2, core alphabet length 3 "
-                 "(thorough: all configurations, length 4 on two), seeded random histories of length 3-6",
+                 "(quick: seeded fifth on two configurations; thorough: all), thorough: seeded half of core length 4 on "
+                 "the first configuration; seeded random histories of length 3-6 (200 / 3000)",
         "rule": "a case = (model, tips, operations); the export is taken after the last operation; histories in which "
                 "a valid operation raises are skipped (reported by 'history'); distinct by hash of the case",
     },
@@ -1168,11 +1172,13 @@ BOUNDED = {
         "functions": ["Calculator.change", "Calculator.testoptparvector", "Calculator.cells_changed_by",
                       "Calculator.plain_update", "Calculator.get_value_array", "Calculator.testfunction",
                       "ParameterController.make_calculator", "update_from_calculator"],
-        "bound": "HKY85, GN and GeneralStationary (cancels steps with ParameterOutOfBoundsError); default settings and "
-                 "a setting with independent/constant/shared parameters; 12 step kinds (single, multiple, all, no-op, "
-                 "back 1, back 2, back-and-change, out of bounds high/low, leaving the stationary region) through "
-                 "testoptparvector, explicit change lists (minimal / naming every parameter) and a calculator without "
-                 "undo: every sequence of length <= 2 (thorough <= 3), seeded random sequences up to length 8",
+        "bound": "HKY85, GN, GeneralStationary (cancels steps with ParameterOutOfBoundsError) and HKY85 with two "
+                 "gamma rate classes; 4-tip tree (thorough also 3-tip); default settings and a setting with independent / "
+                 "constant / shared parameters; 12 step kinds (single, multiple, all, no-op, back 1, back 2, back-and-"
+                 "change, out of bounds high / low, leaving the stationary region) through testoptparvector, explicit "
+                 "change lists (minimal / naming every parameter) and a calculator without undo: every sequence of "
+                 "length <= 2 (thorough <= 3 for testoptparvector and minimal change lists), seeded random sequences of "
+                 "length 3-8 (300 / 4000)",
         "rule": "a case = (model, tips, setup, mode, steps); after every step the value, testfunction, value array and "
                 "every numeric cell are compared with a newly made calculator; non-trivial with >= 1 step; distinct by "
                 "hash of the case",
